@@ -38,6 +38,22 @@ static void check_words(const std::string& text, const std::vector<std::string>&
 #endif
 }
 
+// $in_newline separates with newlines (it is meant for response files): every line must be one sh word equal to the name
+static void check_lines(const std::string& text, const std::vector<std::string>& names) {
+  size_t pos = 0; int k = 0; bool shape = true; int n = (int)names.size();
+  while (shape) {
+    size_t nl = text.find('\n', pos);
+    std::string piece = text.substr(pos, nl == std::string::npos ? std::string::npos : nl - pos);
+    if (k >= n) { shape = false; break; }
+    std::vector<std::string> one(1, names[k]);
+    check_words(piece, one, "C16: $in_newline line contains something /bin/sh would interpret", "C16: each $in_newline line is read by /bin/sh as exactly that file name");
+    k++;
+    if (nl == std::string::npos) break;
+    pos = nl + 1;
+  }
+  VERIF_ASSERT(shape && k == n, "C16: $in_newline has one line per explicit input");
+}
+
 extern "C" int harness_main() {
   ir2c_global_ctors();
 #ifdef MODE_ESCAPE
@@ -66,6 +82,11 @@ extern "C" int harness_main() {
   cmd.AddSpecial("in");
 #endif
   rule->AddBinding("command", cmd);
+#ifdef MODE_BOTH
+  // one statement using $in on its command line and $in_newline in its response file (the usual shape of a link step), and $out
+  EvalString rsp; rsp.AddSpecial("in_newline"); rule->AddBinding("rspfile_content", rsp);
+  EvalString desc; desc.AddSpecial("out"); rule->AddBinding("description", desc);
+#endif
   state.bindings_.AddRule(std::unique_ptr<const Rule>(rule));
   Edge* e = state.AddEdge(rule);
   std::string err;
@@ -85,21 +106,26 @@ extern "C" int harness_main() {
   state.AddIn(e, "order only", 0); e->order_only_deps_ = 1;
   state.AddOut(e, "o", 0, &err);
 #endif
+#ifdef MODE_BOTH
+  { // whatever was evaluated before (and however often), each variable expands to its own list
+    std::vector<std::string> outs(1, "o");
+    for (int round = 0; round < 3; round++) {
+      int which = verif_choice("evaluate_which", 3);
+      if (which == 0) { std::string t = e->EvaluateCommand(false); check_words(t, names, "C16: substituted list contains something /bin/sh would interpret", "C16: /bin/sh reads the substituted list as exactly the file names, in order"); verif_reach("command"); }
+      else if (which == 1) { std::string t = e->GetBinding("rspfile_content"); check_lines(t, names); verif_reach("rspfile_content"); }
+      else { std::string t = e->GetBinding("description"); check_words(t, outs, "C16: substituted list contains something /bin/sh would interpret", "C16: /bin/sh reads the substituted list as exactly the file names, in order"); verif_reach("description"); }
+    }
+    // the command as the build log hashes it / the runner starts it: command line and response-file content in one string
+    std::string full = e->EvaluateCommand(true); size_t sep = full.find(";rspfile=");
+    VERIF_ASSERT(sep != std::string::npos, "C16: EvaluateCommand(incl_rsp_file) carries the response-file content");
+    if (sep != std::string::npos) { check_words(full.substr(0, sep), names, "C16: substituted list contains something /bin/sh would interpret", "C16: /bin/sh reads the substituted list as exactly the file names, in order"); check_lines(full.substr(sep + 9), names); }
+    verif_reach(n > 1 ? "several-names" : "one-name");
+    return 0;
+  }
+#endif
   std::string text = e->EvaluateCommand(false);
 #if defined(MODE_NEWLINE)
-  // $in_newline separates with newlines (it is meant for response files): every line must be one sh word equal to the name
-  size_t pos = 0; int k = 0; bool shape = true;
-  while (shape) {
-    size_t nl = text.find('\n', pos);
-    std::string piece = text.substr(pos, nl == std::string::npos ? std::string::npos : nl - pos);
-    if (k >= n) { shape = false; break; }
-    std::vector<std::string> one(1, names[k]);
-    check_words(piece, one, "C16: $in_newline line contains something /bin/sh would interpret", "C16: each $in_newline line is read by /bin/sh as exactly that file name");
-    k++;
-    if (nl == std::string::npos) break;
-    pos = nl + 1;
-  }
-  VERIF_ASSERT(shape && k == n, "C16: $in_newline has one line per explicit input");
+  check_lines(text, names);
   verif_reach(n > 1 ? "several-names" : "one-name");
   for (size_t i = 0; i < text.size(); i++) verif_obs((unsigned char)text[i]);
   return 0;
